@@ -150,7 +150,8 @@ def tee_cases(draw, tier):
     plan = draw(st.lists(st.integers(0, n - 1), max_size=8))
     return {"op": "tee", "items": items, "n": n, "plan": plan,
             "fl": draw(st.sampled_from(["agen", "aclass", "aplain"])),
-            "susp": draw(st.integers(1, 2)), "lock_susp": draw(st.booleans())}
+            "susp": draw(st.integers(1, 2)), "lock_susp": draw(st.booleans()),
+            "nolock": draw(st.sampled_from([False, False, True]))}
 
 
 def run_tee(case, cancel_at):
@@ -158,11 +159,11 @@ def run_tee(case, cancel_at):
 
     ctx = Ctx("a")
     src = make_source(ctx, "s0", mats(case["items"]), {"fl": case["fl"], "susp": case["susp"]}, "a")
-    lock = Lock(ctx, "lock", suspend_uncontended=case["lock_susp"])
+    lock = None if case.get("nolock") else Lock(ctx, "lock", suspend_uncontended=case["lock_susp"])
     cancel = Cancel("cancel") if cancel_at else None
 
     async def task():
-        handle = a.tee(src.obj, case["n"], lock=lock)
+        handle = a.tee(src.obj, case["n"], lock=lock) if lock is not None else a.tee(src.obj, case["n"])
         children = list(handle)
         done = set()
         try:
